@@ -170,7 +170,12 @@ func zzH_C07_str2str() {
 	check(kk, vv)
 	zzReach("loaded")
 	if mode == 1 {
-		zzAssert(sm.LoadFromSlice(append(append([]string(nil), kk...), "x"), vv) != nil, "a load with mismatched slice lengths succeeded")
+		// a failed load (mismatched lengths, different values) changes nothing
+		badVals := []string{zzString("badval", 2)}
+		if n == 1 {
+			badVals = nil
+		}
+		zzAssert(sm.LoadFromSlice(append(append([]string(nil), kk...), "x"), append(badVals, "y", "z")[:n]) != nil, "a load with mismatched slice lengths succeeded")
 		check(kk, vv)
 		n2 := zzParam("n2")
 		kk2 := zzKeys(n2)
